@@ -197,7 +197,7 @@ def gen_history(rng, length, unsafe=False):
         r = rng.random()
         if r < 0.30:      # derive
             cls = rng.choice(["A", "A", "B"]) if handles(lambda p: p["chunks"] == "B") else "A"
-            cands = handles(lambda p: p["chunks"] == cls and p["depth"] < 6)
+            cands = handles(lambda p: p["chunks"] == cls and p["depth"] < 7)
             if not cands:
                 continue
             n = rng.choice([1, 1, 2, 2, 3])
@@ -209,7 +209,7 @@ def gen_history(rng, length, unsafe=False):
                 pool[s]["deps"] += 1
             pool[L] = dict(lazy=True, chunks=cls, handle=True, deps=0, ret=0, depth=1 + max(pool[s]["depth"] for s in srcs), target=None)
         elif r < 0.35:    # rechunk
-            cands = handles(lambda p: p["depth"] < 6)
+            cands = handles(lambda p: p["depth"] < 7)
             s = rng.choice(cands)
             L = new_label()
             hist.append({"op": "rechunk", "src": s, "id": L})
